@@ -1,1 +1,600 @@
-pub fn nothing(){}
+//! E-SCHED: exhaustive, preemption-bounded exploration of thread
+//! interleavings of graaf's eight fork-join routines.
+//!
+//! Built only with `--features sched`: graaf's hooked `spawn`, `scope`,
+//! `Mutex` and `AtomicBool` then resolve to shuttle's, every one of their
+//! operations is a scheduling point, and the scheduler below decides which
+//! task runs next. It is a stateless depth-first explorer with iterative
+//! context bounding (Musuvathi & Qadeer): at each point the running task
+//! first, then the others in ascending id; switching away from a task that
+//! could still run costs one preemption; every schedule with at most `bound`
+//! preemptions is run to completion.
+
+use crate::core::guarded;
+use crate::refm::Abs;
+use crate::reps::*;
+use graaf::verif_rt::{set_parallelism, Parallelism};
+use graaf::*;
+use serde_json::{json, Value};
+use shuttle::scheduler::{Schedule, Scheduler, Task, TaskId};
+use std::collections::BTreeMap;
+use std::sync::{Arc, Mutex};
+
+#[derive(Clone, Debug)]
+struct Point {
+    options: Vec<usize>,
+    chosen: usize,
+    pre_before: usize,
+    cur_runnable: bool,
+}
+
+#[derive(Default, Debug)]
+pub struct Shared {
+    pub executions: u64,
+    pub with_preemption: u64,
+    pub max_points: usize,
+    pub current: Vec<usize>,
+    pub divergence: Option<String>,
+}
+
+pub struct BoundedDfs {
+    bound: usize,
+    stack: Vec<Point>,
+    pos: usize,
+    pre: usize,
+    started: bool,
+    shared: Arc<Mutex<Shared>>,
+    cap: u64,
+}
+
+impl BoundedDfs {
+    pub fn new(bound: usize, cap: u64, shared: Arc<Mutex<Shared>>) -> Self {
+        Self { bound, stack: Vec::new(), pos: 0, pre: 0, started: false, shared, cap }
+    }
+    /// A fixed schedule: replay exactly `choices` (indices into the canonical option list).
+    pub fn replay(choices: &[usize], shared: Arc<Mutex<Shared>>) -> Self {
+        let stack = choices.iter().map(|&c| Point { options: Vec::new(), chosen: c, pre_before: 0, cur_runnable: false }).collect();
+        Self { bound: usize::MAX, stack, pos: 0, pre: 0, started: false, shared, cap: 1 }
+    }
+}
+
+impl Scheduler for BoundedDfs {
+    fn new_execution(&mut self) -> Option<Schedule> {
+        let mut sh = self.shared.lock().unwrap();
+        if self.started {
+            // account the execution that just ended
+            if self.pre > 0 {
+                sh.with_preemption += 1;
+            }
+            sh.max_points = sh.max_points.max(self.pos);
+            if sh.executions >= self.cap || sh.divergence.is_some() {
+                return None;
+            }
+            // backtrack to the deepest point with an untried alternative within the bound
+            self.stack.truncate(self.pos);
+            loop {
+                let Some(mut p) = self.stack.pop() else { return None };
+                let mut next = p.chosen + 1;
+                let mut found = false;
+                while next < p.options.len() {
+                    let cost = p.pre_before + usize::from(p.cur_runnable);
+                    if cost <= self.bound {
+                        found = true;
+                        break;
+                    }
+                    next += 1;
+                }
+                if found {
+                    p.chosen = next;
+                    self.stack.push(p);
+                    break;
+                }
+            }
+        }
+        self.started = true;
+        self.pos = 0;
+        self.pre = 0;
+        sh.executions += 1;
+        sh.current.clear();
+        Some(Schedule::new(0))
+    }
+
+    fn next_task(&mut self, runnable: &[&Task], current: Option<TaskId>, _is_yielding: bool) -> Option<TaskId> {
+        let cur: Option<usize> = current.map(usize::from);
+        let mut ids: Vec<usize> = runnable.iter().map(|t| usize::from(t.id())).collect();
+        ids.sort_unstable();
+        let cur_runnable = cur.is_some_and(|c| ids.contains(&c));
+        let mut options = Vec::with_capacity(ids.len());
+        if let (true, Some(c)) = (cur_runnable, cur) {
+            options.push(c);
+        }
+        for i in ids {
+            if !(cur_runnable && Some(i) == cur) {
+                options.push(i);
+            }
+        }
+        let pos = self.pos;
+        self.pos += 1;
+        let choice;
+        if pos < self.stack.len() {
+            let p = &mut self.stack[pos];
+            if p.options.is_empty() {
+                // pure replay mode: adopt the options seen now
+                p.options = options.clone();
+                p.pre_before = self.pre;
+                p.cur_runnable = cur_runnable;
+            } else if p.options != options {
+                let mut sh = self.shared.lock().unwrap();
+                sh.divergence = Some(format!("replay divergence at point {pos}: options {options:?}, recorded {:?}", p.options));
+                return None;
+            }
+            if p.chosen >= p.options.len() {
+                let mut sh = self.shared.lock().unwrap();
+                sh.divergence = Some(format!("replay divergence at point {pos}: choice {} out of range {:?}", p.chosen, p.options));
+                return None;
+            }
+            choice = p.chosen;
+        } else {
+            self.stack.push(Point { options: options.clone(), chosen: 0, pre_before: self.pre, cur_runnable });
+            choice = 0;
+        }
+        if choice > 0 && cur_runnable {
+            self.pre += 1;
+        }
+        self.shared.lock().unwrap().current.push(choice);
+        Some(TaskId::from(options[choice]))
+    }
+
+    fn next_u64(&mut self) -> u64 {
+        0
+    }
+}
+
+/// The result of exploring one (routine, input, workers, bound).
+pub struct Explored {
+    pub schedules: u64,
+    pub with_preemption: u64,
+    pub max_points: usize,
+    pub outcomes: BTreeMap<String, u64>,
+    pub failures: Vec<(String, Vec<usize>)>,
+    pub error: Option<String>,
+}
+
+fn config() -> shuttle::Config {
+    let mut c = shuttle::Config::default();
+    c.stack_size = 1 << 20;
+    c.failure_persistence = shuttle::FailurePersistence::None;
+    c.max_steps = shuttle::MaxSteps::FailAfter(200_000);
+    c.silence_warnings = true;
+    c
+}
+
+/// Runs `body` under every schedule with ≤ `bound` preemptions. `body`
+/// returns `Ok(outcome)` (a canonical rendering of the result) or
+/// `Err(violation)`.
+pub fn explore<F>(bound: usize, workers: usize, cap: u64, body: F) -> Explored
+where
+    F: Fn() -> Result<String, String> + Send + Sync + 'static,
+{
+    let shared = Arc::new(Mutex::new(Shared::default()));
+    let outcomes: Arc<Mutex<BTreeMap<String, u64>>> = Arc::new(Mutex::new(BTreeMap::new()));
+    let failures: Arc<Mutex<Vec<(String, Vec<usize>)>>> = Arc::new(Mutex::new(Vec::new()));
+    let sched = BoundedDfs::new(bound, cap, shared.clone());
+    let (o2, f2, s2) = (outcomes.clone(), failures.clone(), shared.clone());
+    let r = std::panic::catch_unwind(std::panic::AssertUnwindSafe(|| {
+        shuttle::Runner::new(sched, config()).run(move || {
+            let _ = set_parallelism(Parallelism::Fixed(workers));
+            match body() {
+                Ok(o) => *o2.lock().unwrap().entry(o).or_insert(0) += 1,
+                Err(e) => {
+                    let cur = s2.lock().unwrap().current.clone();
+                    let mut f = f2.lock().unwrap();
+                    if f.len() < 4 {
+                        f.push((e, cur));
+                    }
+                }
+            }
+        })
+    }));
+    let sh = shared.lock().unwrap();
+    let mut error = sh.divergence.clone();
+    if let Err(e) = r {
+        let msg = e.downcast_ref::<String>().cloned().or_else(|| e.downcast_ref::<&str>().map(|s| (*s).to_string())).unwrap_or_else(|| "panic".into());
+        // a panic that escaped an execution: deadlock, step limit, or a panic in a worker
+        let mut f = failures.lock().unwrap();
+        f.push((format!("execution aborted under this schedule: {msg}"), sh.current.clone()));
+        let _ = &mut error;
+    }
+    let out = Explored { schedules: sh.executions, with_preemption: sh.with_preemption, max_points: sh.max_points, outcomes: outcomes.lock().unwrap().clone(), failures: failures.lock().unwrap().clone(), error };
+    out
+}
+
+/// Replays one recorded schedule twice; returns the two outcomes.
+pub fn replay_twice<F>(choices: &[usize], workers: usize, body: F) -> (Option<Result<String, String>>, Option<Result<String, String>>)
+where
+    F: Fn() -> Result<String, String> + Send + Sync + Clone + 'static,
+{
+    let mut res = Vec::new();
+    for _ in 0..2 {
+        let shared = Arc::new(Mutex::new(Shared::default()));
+        let slot: Arc<Mutex<Option<Result<String, String>>>> = Arc::new(Mutex::new(None));
+        let sched = BoundedDfs::replay(choices, shared.clone());
+        let (b, s2) = (body.clone(), slot.clone());
+        let _ = std::panic::catch_unwind(std::panic::AssertUnwindSafe(|| {
+            shuttle::Runner::new(sched, config()).run(move || {
+                let _ = set_parallelism(Parallelism::Fixed(workers));
+                *s2.lock().unwrap() = Some(b());
+            })
+        }));
+        res.push(slot.lock().unwrap().clone());
+    }
+    (res[0].clone(), res[1].clone())
+}
+
+// ---------------------------------------------------------------------------
+// Routines
+
+fn render<R: Rep>(d: &R) -> String {
+    match observe(d) {
+        Ok(o) => format!("V={:?} A={:?}", o.v, o.a),
+        Err(e) => format!("INVALID: {e}"),
+    }
+}
+
+fn expect_abs<R: Rep>(d: &R, want: &Abs, what: &str) -> Result<String, String> {
+    match observe(d) {
+        Ok(o) if same::<R>(&o, want) => Ok(render(d)),
+        Ok(o) => Err(format!("{what} returned {} under this schedule; the definition gives {}", o.arcs_json(), want.arcs_json())),
+        Err(e) => Err(format!("{what} returned an invalid digraph under this schedule: {e}")),
+    }
+}
+
+#[derive(Clone, Debug)]
+pub enum Job {
+    AlComplement(Abs),
+    AlComplete(usize),
+    AlDegreeSequence(Abs),
+    AlIsSemicomplete(Abs),
+    AlUnion(Abs, Abs),
+    AmUnion(Abs, Abs),
+    AmRandomTournament(usize, u64),
+    AmErdosRenyi(usize, f64, u64),
+    /// deliberately wrong in-harness routine: read-modify-write without holding the lock
+    CanaryLostUpdate,
+}
+
+impl Job {
+    pub fn name(&self) -> &'static str {
+        match self {
+            Job::AlComplement(_) => "AdjacencyList::complement",
+            Job::AlComplete(_) => "AdjacencyList::complete",
+            Job::AlDegreeSequence(_) => "AdjacencyList::degree_sequence",
+            Job::AlIsSemicomplete(_) => "AdjacencyList::is_semicomplete",
+            Job::AlUnion(..) => "AdjacencyList::union",
+            Job::AmUnion(..) => "AdjacencyMap::union",
+            Job::AmRandomTournament(..) => "AdjacencyMap::random_tournament",
+            Job::AmErdosRenyi(..) => "AdjacencyMap::erdos_renyi",
+            Job::CanaryLostUpdate => "canary: lost update",
+        }
+    }
+    pub fn json(&self) -> Value {
+        match self {
+            Job::AlComplement(a) | Job::AlDegreeSequence(a) | Job::AlIsSemicomplete(a) => json!({"routine": self.name(), "digraph": a.arcs_json()}),
+            Job::AlComplete(n) => json!({"routine": self.name(), "order": n}),
+            Job::AlUnion(a, b) | Job::AmUnion(a, b) => json!({"routine": self.name(), "lhs": a.arcs_json(), "rhs": b.arcs_json()}),
+            Job::AmRandomTournament(n, s) => json!({"routine": self.name(), "order": n, "seed": s}),
+            Job::AmErdosRenyi(n, p, s) => json!({"routine": self.name(), "order": n, "p": p, "seed": s}),
+            Job::CanaryLostUpdate => json!({"routine": self.name()}),
+        }
+    }
+    /// Deterministic routines are judged against the reference; the seeded
+    /// generators for validity (and, across schedules, for a single outcome).
+    pub fn run(&self) -> Result<String, String> {
+        let r = guarded(|| match self {
+            Job::AlComplement(a) => {
+                let d = mk::<AL>(a);
+                expect_abs(&d.complement(), &a.complement(), "AdjacencyList::complement")
+            }
+            Job::AlComplete(n) => expect_abs(&AL::complete(*n), &crate::props::gens::closed_form("complete", *n), "AdjacencyList::complete"),
+            Job::AlDegreeSequence(a) => {
+                let d = mk::<AL>(a);
+                let got: Vec<usize> = d.degree_sequence().collect();
+                let want: Vec<usize> = (0..a.n()).map(|v| a.indeg(v) + a.outdeg(v)).collect();
+                if got == want {
+                    Ok(format!("{got:?}"))
+                } else {
+                    Err(format!("AdjacencyList::degree_sequence returned {got:?} under this schedule; degrees are {want:?}"))
+                }
+            }
+            Job::AlIsSemicomplete(a) => {
+                let d = mk::<AL>(a);
+                let got = d.is_semicomplete();
+                if got == a.is_semicomplete() {
+                    Ok(format!("{got}"))
+                } else {
+                    Err(format!("AdjacencyList::is_semicomplete returned {got} under this schedule; the definition gives {}", a.is_semicomplete()))
+                }
+            }
+            Job::AlUnion(a, b) => {
+                let (da, db) = (mk::<AL>(a), mk::<AL>(b));
+                expect_abs(&da.union(&db), &a.union(b), "AdjacencyList::union")
+            }
+            Job::AmUnion(a, b) => {
+                let (da, db) = (mk_am(a), mk_am(b));
+                expect_abs(&da.union(&db), &a.union(b), "AdjacencyMap::union")
+            }
+            Job::AmRandomTournament(n, seed) => {
+                let d = AM::random_tournament(*n, *seed);
+                let o = observe(&d).map_err(|e| format!("AdjacencyMap::random_tournament returned an invalid digraph under this schedule: {e}"))?;
+                for u in 0..*n {
+                    for v in (u + 1)..*n {
+                        if o.has(u, v) == o.has(v, u) {
+                            return Err(format!("AdjacencyMap::random_tournament({n}, {seed}) is not a tournament under this schedule: pair {{{u},{v}}}; arcs {:?}", o.a));
+                        }
+                    }
+                }
+                if o.v != (0..*n).collect() {
+                    return Err(format!("AdjacencyMap::random_tournament({n}, {seed}) has vertex set {:?}", o.v));
+                }
+                Ok(render(&d))
+            }
+            Job::AmErdosRenyi(n, p, seed) => {
+                let d = AM::erdos_renyi(*n, *p, *seed);
+                let o = observe(&d).map_err(|e| format!("AdjacencyMap::erdos_renyi returned an invalid digraph under this schedule: {e}"))?;
+                if o.v != (0..*n).collect() {
+                    return Err(format!("AdjacencyMap::erdos_renyi({n}, {p}, {seed}) has vertex set {:?}", o.v));
+                }
+                Ok(render(&d))
+            }
+            Job::CanaryLostUpdate => {
+                use shuttle::sync::Mutex as SMutex;
+                let cell = Arc::new(SMutex::new(0u32));
+                let hs: Vec<_> = (0..2)
+                    .map(|_| {
+                        let c = cell.clone();
+                        shuttle::thread::spawn(move || {
+                            let v = *c.lock().unwrap();
+                            *c.lock().unwrap() = v + 1;
+                        })
+                    })
+                    .collect();
+                for h in hs {
+                    let _ = h.join();
+                }
+                let v = *cell.lock().unwrap();
+                Ok(format!("{v}"))
+            }
+        });
+        match r {
+            Ok(x) => x,
+            Err(e) => Err(format!("{} panicked under this schedule: {e}", self.name())),
+        }
+    }
+}
+
+pub struct JobResult {
+    pub job: Job,
+    pub workers: usize,
+    pub bound: usize,
+    pub ex: Explored,
+}
+
+/// Explores a list of jobs on `threads` OS threads (each with its own shuttle
+/// runner), for each bound 0..=maxbound (iterative context bounding).
+pub fn run_jobs(jobs: Vec<(Job, usize)>, maxbound: usize, cap: u64, threads: usize) -> Vec<JobResult> {
+    let jobs = Arc::new(jobs);
+    let next = Arc::new(std::sync::atomic::AtomicUsize::new(0));
+    let results: Arc<Mutex<Vec<JobResult>>> = Arc::new(Mutex::new(Vec::new()));
+    let mut hs = Vec::new();
+    for _ in 0..threads.max(1) {
+        let (jobs, next, results) = (jobs.clone(), next.clone(), results.clone());
+        hs.push(std::thread::Builder::new().stack_size(32 << 20).spawn(move || loop {
+            let i = next.fetch_add(1, std::sync::atomic::Ordering::Relaxed);
+            if i >= jobs.len() {
+                break;
+            }
+            let (job, workers) = jobs[i].clone();
+            let j2 = job.clone();
+            // the deepest bound subsumes the smaller ones; count them separately only for reporting
+            let ex = explore(maxbound, workers, cap, move || j2.run());
+            results.lock().unwrap().push(JobResult { job, workers, bound: maxbound, ex });
+        }).unwrap());
+    }
+    for h in hs {
+        let _ = h.join();
+    }
+    Arc::try_unwrap(results).ok().unwrap().into_inner().unwrap()
+}
+
+fn jobs_for(prop: &str, tier: &str) -> (Vec<(Job, usize)>, usize) {
+    let thorough = tier == "thorough";
+    let maxbound = if thorough { 3 } else { 2 };
+    let worker_counts: Vec<usize> = if thorough { vec![2, 3] } else { vec![2] };
+    let mut jobs: Vec<(Job, usize)> = Vec::new();
+    let d3: Vec<Abs> = (0..64).map(|m| Abs::from_mask(3, m)).collect();
+    let some4: Vec<Abs> = {
+        // order-4 inputs: every digraph of the families used across the checks plus every
+        // digraph with ≥ 10 arcs (dense: is_semicomplete's pair loop runs long) — 79 + 8
+        let mut v: Vec<Abs> = (0..4096u64).filter(|m| m.count_ones() >= 10).map(|m| Abs::from_mask(4, m)).collect();
+        for name in ["empty", "circuit", "cycle", "path", "star", "wheel"] {
+            v.push(crate::props::gens::closed_form(name, 4));
+        }
+        v
+    };
+    for &w in &worker_counts {
+        match prop {
+            "C12" => {
+                for a in &d3 {
+                    jobs.push((Job::AlIsSemicomplete(a.clone()), w));
+                }
+                let sel: Vec<Abs> = (0..4096u64).filter(|m| m.count_ones() >= if thorough { 6 } else { 9 }).map(|m| Abs::from_mask(4, m)).collect();
+                for a in sel {
+                    jobs.push((Job::AlIsSemicomplete(a), w));
+                }
+            }
+            "C15" => {
+                for n in 3..=(if thorough { 5 } else { 4 }) {
+                    for seed in [0u64, 1, u64::MAX] {
+                        jobs.push((Job::AmRandomTournament(n, seed), w));
+                        jobs.push((Job::AmErdosRenyi(n, 0.3, seed), w));
+                        jobs.push((Job::AmErdosRenyi(n, 0.8, seed), w));
+                    }
+                }
+            }
+            _ => {
+                // C17: all eight routines
+                for a in d3.iter().step_by(if thorough { 1 } else { 3 }) {
+                    jobs.push((Job::AlComplement(a.clone()), w));
+                    jobs.push((Job::AlDegreeSequence(a.clone()), w));
+                    jobs.push((Job::AlIsSemicomplete(a.clone()), w));
+                }
+                for a in some4.iter().step_by(if thorough { 1 } else { 4 }) {
+                    jobs.push((Job::AlComplement(a.clone()), w));
+                    jobs.push((Job::AlDegreeSequence(a.clone()), w));
+                    jobs.push((Job::AlIsSemicomplete(a.clone()), w));
+                }
+                for n in 2..=5 {
+                    jobs.push((Job::AlComplete(n), w));
+                }
+                let pick: Vec<&Abs> = d3.iter().step_by(7).collect();
+                for a in &pick {
+                    for b in &pick {
+                        jobs.push((Job::AlUnion((*a).clone(), (*b).clone()), w));
+                        jobs.push((Job::AmUnion((*a).clone(), (*b).clone()), w));
+                    }
+                }
+                // AdjacencyMap::union with overlapping non-contiguous key sets
+                let sp = crate::spacesx::SparseSpace::new(&[0, 1, 4], 3);
+                for i in (0..sp.total).step_by(if thorough { 3 } else { 11 }) {
+                    for j in (0..sp.total).step_by(if thorough { 5 } else { 13 }) {
+                        jobs.push((Job::AmUnion(sp.get(i), sp.get(j)), w));
+                    }
+                }
+                jobs.push((Job::AlUnion(crate::props::gens::closed_form("cycle", 4), crate::props::gens::closed_form("star", 3)), w));
+                for seed in [0u64, 7] {
+                    jobs.push((Job::AmRandomTournament(4, seed), w));
+                    jobs.push((Job::AmErdosRenyi(4, 0.3, seed), w));
+                    jobs.push((Job::AmErdosRenyi(3, 0.8, seed), w));
+                }
+            }
+        }
+    }
+    (jobs, maxbound)
+}
+
+/// `gv sched <prop> <tier>`: prints one JSON document on stdout.
+pub fn main_sched(prop: &str, tier: &str) -> i32 {
+    crate::core::silence_panics();
+    let threads = std::thread::available_parallelism().map_or(8, |n| n.get());
+    // canary first: the explorer must see both outcomes of a lost update at bound 1
+    let canary = explore(1, 2, 100_000, || Job::CanaryLostUpdate.run());
+    let canary_ok = canary.outcomes.len() >= 2;
+    let canary0 = explore(0, 2, 100_000, || Job::CanaryLostUpdate.run());
+    let (jobs, maxbound) = jobs_for(prop, tier);
+    let njobs = jobs.len();
+    let cap = if tier == "thorough" { 2_000_000 } else { 200_000 };
+    let t0 = std::time::Instant::now();
+    let results = run_jobs(jobs, maxbound, cap, threads);
+    let mut per_routine: BTreeMap<String, (u64, u64, u64, u64, usize)> = BTreeMap::new(); // jobs, schedules, with_preemption, multi-outcome jobs, max points
+    let mut fails: Vec<Value> = Vec::new();
+    let mut errors: Vec<String> = Vec::new();
+    let mut capped = 0u64;
+    let mut sample: Option<Value> = None;
+    for r in &results {
+        let e = per_routine.entry(format!("{} ({} workers, ≤{} preemptions)", r.job.name(), r.workers, r.bound)).or_insert((0, 0, 0, 0, 0));
+        e.0 += 1;
+        e.1 += r.ex.schedules;
+        e.2 += r.ex.with_preemption;
+        e.4 = e.4.max(r.ex.max_points);
+        if r.ex.schedules >= cap {
+            capped += 1;
+        }
+        if r.ex.outcomes.len() > 1 {
+            e.3 += 1;
+            fails.push(json!({"what": format!("{} gave {} distinct results across schedules (must be 1)", r.job.name(), r.ex.outcomes.len()), "job": r.job.json(), "workers": r.workers, "outcomes": r.ex.outcomes}));
+        }
+        for (msg, sch) in &r.ex.failures {
+            fails.push(json!({"what": msg, "job": r.job.json(), "workers": r.workers, "schedule": sch}));
+        }
+        if let Some(err) = &r.ex.error {
+            errors.push(err.clone());
+        }
+        if sample.is_none() && r.ex.with_preemption > 0 {
+            sample = Some(json!({"job": r.job.json(), "workers": r.workers, "schedules": r.ex.schedules, "with_preemption": r.ex.with_preemption, "scheduling_points": r.ex.max_points}));
+        }
+    }
+    fails.truncate(8);
+    let schedules: u64 = results.iter().map(|r| r.ex.schedules).sum();
+    let with_pre: u64 = results.iter().map(|r| r.ex.with_preemption).sum();
+    let out = json!({
+        "property": prop, "tier": tier,
+        "jobs": njobs, "schedules": schedules, "schedules_with_preemption": with_pre,
+        "max_preemptions": maxbound, "capped_jobs": capped, "cap": cap,
+        "per_routine": per_routine.iter().map(|(k, v)| json!({"routine": k, "inputs": v.0, "schedules": v.1, "schedules_with_preemption": v.2, "inputs_with_more_than_one_outcome": v.3, "max_scheduling_points": v.4})).collect::<Vec<_>>(),
+        "canary_lost_update": {"bound0_outcomes": canary0.outcomes, "bound1_outcomes": canary.outcomes, "bound1_schedules": canary.schedules, "detected": canary_ok},
+        "failures": fails, "errors": errors, "sample": sample,
+        "wall_s": t0.elapsed().as_secs_f64(),
+    });
+    println!("@@SCHED {out}");
+    if !canary_ok || !errors.is_empty() {
+        return 2;
+    }
+    0
+}
+
+impl Job {
+    pub fn from_json(v: &Value) -> Option<Job> {
+        let r = v.get("routine")?.as_str()?;
+        let abs = |k: &str| v.get(k).and_then(Abs::from_json);
+        Some(match r {
+            "AdjacencyList::complement" => Job::AlComplement(abs("digraph")?),
+            "AdjacencyList::degree_sequence" => Job::AlDegreeSequence(abs("digraph")?),
+            "AdjacencyList::is_semicomplete" => Job::AlIsSemicomplete(abs("digraph")?),
+            "AdjacencyList::complete" => Job::AlComplete(v.get("order")?.as_u64()? as usize),
+            "AdjacencyList::union" => Job::AlUnion(abs("lhs")?, abs("rhs")?),
+            "AdjacencyMap::union" => Job::AmUnion(abs("lhs")?, abs("rhs")?),
+            "AdjacencyMap::random_tournament" => Job::AmRandomTournament(v.get("order")?.as_u64()? as usize, v.get("seed")?.as_u64()?),
+            "AdjacencyMap::erdos_renyi" => Job::AmErdosRenyi(v.get("order")?.as_u64()? as usize, v.get("p")?.as_f64()?, v.get("seed")?.as_u64()?),
+            _ => return None,
+        })
+    }
+}
+
+/// Re-runs one recorded failing schedule twice without the explorer; the
+/// two runs must agree (else: machinery error).
+pub fn replay_failure(file: &Value) -> i32 {
+    crate::core::silence_panics();
+    let d = file.get("detail").unwrap_or(file);
+    let Some(job) = d.get("job").and_then(Job::from_json) else {
+        eprintln!("gv: replay file names no schedulable job");
+        return 2;
+    };
+    let workers = d.get("workers").and_then(Value::as_u64).unwrap_or(2) as usize;
+    match d.get("schedule").and_then(Value::as_array) {
+        Some(s) => {
+            let choices: Vec<usize> = s.iter().filter_map(|x| x.as_u64().map(|x| x as usize)).collect();
+            let j2 = job.clone();
+            let (a, b) = replay_twice(&choices, workers, move || j2.run());
+            println!("replay of {} with {workers} workers under schedule {choices:?}:\n  run 1: {a:?}\n  run 2: {b:?}", job.name());
+            if a != b {
+                eprintln!("gv: the two replays of one schedule disagree (uncontrolled nondeterminism): machinery error");
+                return 2;
+            }
+            match a {
+                Some(Err(_)) | None => 1,
+                Some(Ok(_)) => 0,
+            }
+        }
+        None => {
+            // "more than one outcome": explore again and report
+            let j2 = job.clone();
+            let ex = explore(2, workers, 200_000, move || j2.run());
+            println!("re-exploration of {}: {} schedules, outcomes {:?}, failures {:?}", job.name(), ex.schedules, ex.outcomes, ex.failures);
+            if ex.outcomes.len() > 1 || !ex.failures.is_empty() {
+                1
+            } else {
+                0
+            }
+        }
+    }
+}
